@@ -153,6 +153,21 @@ def make_cases(tag, behs, paths):
     return cases
 
 
+AGGS = ("first", "last", "min", "max", "count")
+
+
+def agg_cases(tag, behs):
+    """Count-window behaviours run through WindowOperator with the library aggregators
+    (first / last / min / max / count) instead of the collecting fold: C12 'every aggregator is
+    applied to exactly the group's elements'.  No model prediction (outm) for these."""
+    cases = []
+    for i, b in enumerate(behs):
+        agg = AGGS[i % len(AGGS)]
+        cases.append({"id": f"{tag}{i}{agg}", "kind": "count", "p": dict(b["p"], agg=agg), "path": "keyed",
+                      "input": b["input"], "outm": None})
+    return cases
+
+
 def run_vhw(cases, wd, nproc=4, timeout=600):
     nproc = max(1, min(nproc, len(cases) // 200 + 1))
     chunks = [cases[i::nproc] for i in range(nproc)]
@@ -200,8 +215,11 @@ def judge(V, wd, cases, results):
             continue
         if len(r["out"]) != len(c["input"]):
             raise ToolError(f"vhw output of {c['id']} has {len(r['out'])} steps for {len(c['input'])} inputs")
-        recs.append({"ev": "case", "id": c["id"], "kind": c["kind"], "path": c["path"], "p": c["p"],
-                     "input": c["input"], "out": r["out"], "outm": c["outm"]})
+        rec = {"ev": "case", "id": c["id"], "kind": c["kind"], "path": c["path"], "p": c["p"],
+               "input": c["input"], "out": r["out"]}
+        if c.get("outm") is not None:
+            rec["outm"] = c["outm"]
+        recs.append(rec)
         recs.append({"ev": "done", "id": c["id"]})
     ncases = len(recs) // 2
     per = max(200, 2 * math.ceil(ncases / max(1, NPROC)))
@@ -214,7 +232,7 @@ def judge(V, wd, cases, results):
     V.coverage["traces_validated_against_impl"] += ncases
     cnt = V.coverage.setdefault("cases_run_on_real_code", {})
     for c in cases:
-        k = f"{c['kind']}/{c['path']}"
+        k = f"{c['kind']}/{c['path']}" + ("/aggregators" if c["p"].get("agg") else "")
         cnt[k] = cnt.get(k, 0) + 1
     if infos:
         V.drift.append(f"{len(infos)} of {ncases} replayed window behaviours differ from the model "
@@ -256,7 +274,7 @@ def C12(V, tier):
                  ("CountWindow_thorough", "CountWindow_keyed_thorough", "CountWindow_keyed2_thorough")]
     jobs += [gen("CountWindow", gen_cfg), gen("CountWindow", "CountWindow_gen_keyed"),
              gen("CountWindow", "CountWindow_gen_timed"),
-             gen("CountWindow", "CountWindow_gen_sim", simulate=200 if quick else 3000)]
+             gen("CountWindow", "CountWindow_gen_sim", simulate=100 if quick else 3000)]
     b = run_tlc(V, wd, jobs)
     # R: the whole finite space (N, S, mode, len1, len2) on the real manager
     behs = b[gen_cfg]
@@ -266,10 +284,11 @@ def C12(V, tier):
     cases = make_cases("c", behs, ["direct"])
     # keyed interleavings through WindowOperator (real single-block jobs); timed inputs with watermarks
     kb = b["CountWindow_gen_keyed"]
-    cases += make_cases("k", kb if not quick else sample(rng, kb, 1500), ["keyed"])
-    cases += make_cases("s", sample(rng, behs, 300 if quick else 2000), ["keyed"])
+    cases += make_cases("k", kb if not quick else sample(rng, kb, 800), ["keyed"])
+    cases += make_cases("s", sample(rng, behs, 200 if quick else 2000), ["keyed"])
     cases += make_cases("t", b["CountWindow_gen_timed"], ["direct", "keyed"])
     cases += make_cases("r", b["CountWindow_gen_sim"], ["keyed"])
+    cases += agg_cases("a", sample(rng, kb + behs, 500 if quick else 5000) + b["CountWindow_gen_sim"])
     results = run_vhw(cases, wd)
     judge(V, wd, cases, results)
     direct_done = sum(1 for c in cases if c["id"].startswith("c") and results.get(c["id"], {}).get("panic") is None)
@@ -302,9 +321,9 @@ def C13(V, tier):
                  ("TransactionWindow_thorough", "TransactionWindow_thorough2", "TransactionWindow_keyed_thorough")]
         jobs += [gen("EventTimeWindow", "EventTimeWindow_gen_keyed")]
     jobs += [gen("EventTimeWindow", ev_gen),
-             gen("EventTimeWindow", "EventTimeWindow_gen_sim", simulate=300 if quick else 4000),
+             gen("EventTimeWindow", "EventTimeWindow_gen_sim", simulate=150 if quick else 4000),
              gen("TransactionWindow", "TransactionWindow_gen"), gen("TransactionWindow", "TransactionWindow_gen2"),
-             gen("TransactionWindow", "TransactionWindow_gen_sim", simulate=200 if quick else 3000)]
+             gen("TransactionWindow", "TransactionWindow_gen_sim", simulate=100 if quick else 3000)]
     b = run_tlc(V, wd, jobs)
     cases = []
     eb = b[ev_gen]
@@ -314,7 +333,7 @@ def C13(V, tier):
         cases += make_cases("k", b["EventTimeWindow_gen_keyed"], ["keyed"])
     cases += make_cases("r", b["EventTimeWindow_gen_sim"], ["keyed"])
     tb = b["TransactionWindow_gen"]
-    cases += make_cases("t", tb if not quick else sample(rng, tb, 2000), ["direct"])
+    cases += make_cases("t", tb if not quick else sample(rng, tb, 1500), ["direct"])
     cases += make_cases("u", sample(rng, tb, 200 if quick else 2000), ["keyed"])
     cases += make_cases("v", b["TransactionWindow_gen2"], ["direct", "keyed"] if not quick else ["direct"])
     cases += make_cases("w", b["TransactionWindow_gen_sim"], ["keyed"])
@@ -340,7 +359,7 @@ def C14(V, tier):
                  mc("SessionWindow", "SessionWindow_thorough", a4)]
     for m in ("ProcTimeWindow", "SessionWindow"):
         jobs += [gen(m, f"{m}_gen" if quick else f"{m}_gen_thorough"), gen(m, f"{m}_gen2"),
-                 gen(m, f"{m}_gen_sim", simulate=300 if quick else 4000)]
+                 gen(m, f"{m}_gen_sim", simulate=150 if quick else 4000)]
     b = run_tlc(V, wd, jobs)
     cases = []
     for m, tag in (("ProcTimeWindow", "p"), ("SessionWindow", "s")):
@@ -348,7 +367,7 @@ def C14(V, tier):
         cases += make_cases(tag + "a", b1, ["direct"])
         cases += make_cases(tag + "b", sample(rng, b1, 300 if quick else 3000), ["keyed"])
         b2 = b[f"{m}_gen2"]
-        cases += make_cases(tag + "c", b2 if not quick else sample(rng, b2, 1500), ["keyed"])
+        cases += make_cases(tag + "c", b2 if not quick else sample(rng, b2, 600), ["keyed"])
         cases += make_cases(tag + "d", b[f"{m}_gen_sim"], ["keyed"])
     results = run_vhw(cases, wd)
     judge(V, wd, cases, results)
